@@ -5,9 +5,11 @@ import (
 	"fmt"
 	"hash/fnv"
 	"os"
+	"runtime"
 	"sort"
 	"strings"
 	"sync"
+	"time"
 )
 
 // PropStats is what one test process measured for one property.
@@ -137,4 +139,30 @@ func writeStats(path string) {
 	if err := os.WriteFile(path, data, 0o644); err != nil {
 		fmt.Fprintln(os.Stderr, "verif: cannot write stats:", err)
 	}
+}
+
+// Watchdog guards one call into the library from a SEQUENTIAL history: nothing else is going on,
+// so a call that does not come back within d can only be a lock that is never released (or an
+// endless loop). The process is ended with a line the driver recognises; the trace of the case is
+// printed by the caller-supplied describe function.
+func Watchdog(prop, what string, d time.Duration, describe func() string) (stop func()) {
+	tm := time.AfterFunc(d, func() { watchdogFire(prop, what, d, describe) })
+	return func() { tm.Stop() }
+}
+
+func watchdogFire(prop, what string, d time.Duration, describe func() string) {
+	buf := make([]byte, 4<<20)
+	buf = buf[:runtime.Stack(buf, true)]
+	var keep []string
+	for _, g := range strings.Split(string(buf), "\n\n") {
+		if strings.Contains(g, "kelindar/column") {
+			keep = append(keep, g)
+		}
+	}
+	desc := ""
+	if describe != nil {
+		desc = describe()
+	}
+	fmt.Printf("\nWATCHDOG-VIOLATION %s violated: %s did not return within %s in a sequential history (a call that never completes: a lock that is never released)\n--- history ---\n%s\n=== goroutines inside kelindar/column ===\n%s\n", prop, what, d, desc, strings.Join(keep, "\n\n"))
+	os.Exit(7)
 }
